@@ -250,7 +250,7 @@ impl MemoryChunk {
     }
     
     fn can_allocate(&self, size: usize) -> bool {
-        self.size + size <= self.capacity
+        self.size.checked_add(size).map_or(false, |end| end <= self.capacity)
     }
 }
 
@@ -330,7 +330,8 @@ impl NoLockingPool {
     }
     
     fn align_up(&self, size: usize) -> usize {
-        (size + self.config.alignment - 1) & !(self.config.alignment - 1)
+        // saturating: an absurdly large request must reach the capacity check, not overflow here
+        size.saturating_add(self.config.alignment - 1) & !(self.config.alignment - 1)
     }
     
     fn alloc_from_fast_bin(&mut self, size: usize) -> Result<MemOffset> {
@@ -507,7 +508,8 @@ impl MutexBasedPool {
     }
     
     fn align_up(&self, size: usize) -> usize {
-        (size + self.config.alignment - 1) & !(self.config.alignment - 1)
+        // saturating: an absurdly large request must reach the capacity check, not overflow here
+        size.saturating_add(self.config.alignment - 1) & !(self.config.alignment - 1)
     }
     
     fn alloc_from_fast_bin(&self, size: usize) -> Result<MemOffset> {
@@ -661,7 +663,8 @@ impl LockFreePool {
     }
     
     fn align_up(&self, size: usize) -> usize {
-        (size + self.config.alignment - 1) & !(self.config.alignment - 1)
+        // saturating: an absurdly large request must reach the capacity check, not overflow here
+        size.saturating_add(self.config.alignment - 1) & !(self.config.alignment - 1)
     }
     
     fn alloc_from_fast_bin_lockfree(&self, size: usize) -> Result<MemOffset> {
@@ -963,7 +966,8 @@ impl ThreadLocalPool {
     }
     
     fn align_up(&self, size: usize) -> usize {
-        (size + self.config.alignment - 1) & !(self.config.alignment - 1)
+        // saturating: an absurdly large request must reach the capacity check, not overflow here
+        size.saturating_add(self.config.alignment - 1) & !(self.config.alignment - 1)
     }
     
     pub fn stats(&self) -> PoolStats {
@@ -1010,7 +1014,7 @@ impl FixedCapacityPool {
         
         // Check capacity before allocation
         let stats = self.inner.stats();
-        if stats.used_memory + aligned_size > self.max_capacity {
+        if stats.used_memory.saturating_add(aligned_size) > self.max_capacity {
             return Err(ZiporaError::resource_exhausted("Fixed capacity exceeded"));
         }
         
@@ -1022,7 +1026,8 @@ impl FixedCapacityPool {
     }
     
     fn align_up(&self, size: usize) -> usize {
-        (size + self.config.alignment - 1) & !(self.config.alignment - 1)
+        // saturating: an absurdly large request must reach the capacity check, not overflow here
+        size.saturating_add(self.config.alignment - 1) & !(self.config.alignment - 1)
     }
     
     pub fn remaining_capacity(&self) -> usize {
